@@ -67,6 +67,35 @@ def _dispatch(eng, case, front):
             return lambda name, ap, reply, ctx: calls.append((hid, name))
         return lambda name, param, ap: calls.append((hid, name))
 
+    traffic = bool(case.get('traffic')) and front != 'disp'
+    if traffic:
+        # the Interest that is asked about at the end also arrives after every operation of the history (handlers
+        # see traffic between attach / detach operations): each delivery goes by the table as it is at that moment
+        im0 = case.get('inames') or INAMES
+        t_iname = im0[eng.choice(len(im0), 'iname')]
+        t_wire = bytes(enc.make_interest(t_iname, enc.InterestParam(nonce=4)))
+
+        def probe(step):
+            del calls[:]
+
+            async def pmain(loop):
+                try:
+                    await app._receive(5, t_wire)
+                except Exception as e:
+                    eng.fail('receive-returns', exc_sig(e))
+                for _ in range(4):
+                    await asyncio.sleep(0)
+            appenv.run(eng, pmain)
+            exp_ = None
+            for p_, hid_ in model.items():
+                if _is_prefix(p_, t_iname) and (exp_ is None or len(p_) > len(exp_[0])):
+                    exp_ = (p_, hid_)
+            got_ = [c[0] for c in calls]
+            eng.check(got_ == ([] if exp_ is None else [exp_[1]]), 'longest-prefix',
+                      {'after_operation': step, 'calls': got_, 'expected': exp_, 'name': t_iname},
+                      sig='traffic-between-operations:' + ('wrong-handler' if got_ else 'no-handler'))
+            del calls[:]
+        probe(-1)
     for j in range(nops):
         op = eng.choice(2, 'op')
         pm = case.get('prefixes') or PREFIXES
@@ -107,8 +136,10 @@ def _dispatch(eng, case, front):
                 eng.fail('attach-detach-no-error', exc_sig(e), {'op': op, 'prefix': p})
         except Exception as e:
             eng.fail('attach-detach-no-error', exc_sig(e), {'op': op, 'prefix': p})
+        if traffic and j < nops - 1:
+            probe(j)
     im = case.get('inames') or INAMES
-    iname = im[eng.choice(len(im), 'iname')]
+    iname = t_iname if traffic else im[eng.choice(len(im), 'iname')]
     wire = bytes(enc.make_interest(iname, enc.InterestParam(nonce=4)))
     exp = None
     for p, hid in model.items():
@@ -254,6 +285,11 @@ def cases(tier, seed):
     for h in ('dispatch_v2', 'dispatch_v1', 'dispatch_disp'):
         for n in (0, 1, 2):
             cs.append((h, {'ops': n}, {'weight': 1 + 60 ** n // 30, 'split_depth': 3 if n >= 2 else None}))
+        if h != 'dispatch_disp':
+            cs.append((h, {'ops': 2, 'traffic': True, 'reprs': [0, 2], 'prefixes': ['/a', '/a/a', '/'],
+                           'inames': ['/a', '/a/a', '/a/a/z', '/b']}, {'weight': 30}))
+            cs.append((h, {'ops': 3, 'traffic': True, 'reprs': [1, 0, 3], 'prefixes': ['/a', '/a/a'],
+                           'inames': ['/a/a/z', '/a']}, {'weight': 60, 'split_depth': 4}))
         if h == 'dispatch_v2':
             # attach through the route() decorator or through attach_handler, by choice, on a small tree
             cs.append((h, {'ops': 2, 'route': True, 'prefixes': ['/a', '/a/a'], 'inames': ['/a', '/a/a', '/a/a/z', '/b']},
